@@ -223,6 +223,58 @@ func (c *codecImpl) Exec(line string) string {
 			return "bad-op"
 		}
 		return c.swap(uint32(ch), k, w[3], val)
+	case w[0] == "putany" && len(w) == 4:
+		// Buffer.PutAny with an integer of the named Go type
+		idx, e1 := strconv.ParseUint(w[2], 10, 32)
+		if e1 != nil {
+			return "bad-op"
+		}
+		var x any
+		if strings.HasPrefix(w[1], "u") {
+			u, err := strconv.ParseUint(w[3], 10, 64)
+			if err != nil {
+				return "bad-op"
+			}
+			switch w[1] {
+			case "u8":
+				x = uint8(u)
+			case "u16":
+				x = uint16(u)
+			case "u32":
+				x = uint32(u)
+			case "u64":
+				x = u
+			case "uint":
+				x = uint(u)
+			}
+			if x == nil || (w[1] == "u8" && u > 0xff) || (w[1] == "u16" && u > 0xffff) || (w[1] == "u32" && u > 0xffffffff) {
+				return "bad-op"
+			}
+		} else {
+			i, err := strconv.ParseInt(w[3], 10, 64)
+			if err != nil {
+				return "bad-op"
+			}
+			switch w[1] {
+			case "i8":
+				x = int8(i)
+			case "i16":
+				x = int16(i)
+			case "i32":
+				x = int32(i)
+			case "i64":
+				x = i
+			case "int":
+				x = int(i)
+			}
+			if x == nil || (w[1] == "i8" && int64(int8(i)) != i) || (w[1] == "i16" && int64(int16(i)) != i) || (w[1] == "i32" && int64(int32(i)) != i) {
+				return "bad-op"
+			}
+		}
+		if err := c.buf.PutAny(commit.Put, uint32(idx), x); err != nil {
+			return "err bad"
+		}
+		return "ok"
 	case w[0] == "swaps" && len(w) == 8:
 		// two swaps during ONE Range pass over the chunk: positions k1 < k2
 		ch, e1 := strconv.ParseUint(w[1], 10, 32)
@@ -787,6 +839,55 @@ func wireCases(r *rand.Rand, n int, rep *Report) []Case {
 	return out
 }
 
+// putAnyCases: every Go integer type at its edge values (and random ones) through Buffer.PutAny, then the bytes and
+// the decoded operations
+func putAnyCases(r *rand.Rand, n int) []Case {
+	types := []struct {
+		name   string
+		bits   uint
+		signed bool
+	}{{"i8", 8, true}, {"i16", 16, true}, {"i32", 32, true}, {"i64", 64, true}, {"int", 64, true},
+		{"u8", 8, false}, {"u16", 16, false}, {"u32", 32, false}, {"u64", 64, false}, {"uint", 64, false}}
+	var out []Case
+	for k := 0; k < n; k++ {
+		lines := []string{"new a"}
+		idx := uint32(r.Intn(5))
+		for j := 0; j < 12; j++ {
+			t := types[(k+j)%len(types)]
+			var dec string
+			if t.signed {
+				lo, hi := -(int64(1) << (t.bits - 1)), int64(1)<<(t.bits-1)-1
+				v := []int64{lo, hi, -1, 0, 1, lo + 1, hi - 1, -128, 127, -129, 128}[r.Intn(11)]
+				if r.Intn(2) == 0 {
+					v = r.Int63() >> (64 - t.bits)
+					if r.Intn(2) == 0 {
+						v = -v - 1
+					}
+				}
+				if v < lo || v > hi {
+					v = lo
+				}
+				dec = strconv.FormatInt(v, 10)
+			} else {
+				hi := ^uint64(0) >> (64 - t.bits)
+				v := []uint64{0, 1, hi, hi - 1, 255, 256, 65535, 65536}[r.Intn(8)]
+				if r.Intn(2) == 0 {
+					v = r.Uint64() >> (64 - t.bits)
+				}
+				if v > hi {
+					v = hi
+				}
+				dec = strconv.FormatUint(v, 10)
+			}
+			idx += uint32(r.Intn(3))
+			lines = append(lines, fmt.Sprintf("putany %s %d %s", t.name, idx, dec))
+		}
+		lines = append(lines, "writeto", "seek", "chunks")
+		out = append(out, Case{Name: fmt.Sprintf("putany-%d", k), Lines: lines, Features: []string{"wire", "putany"}})
+	}
+	return out
+}
+
 // exhaustive short sequences over a reduced alphabet
 func exhaustiveCodec(length int, rep *Report) []Case {
 	type atom struct {
@@ -897,6 +998,22 @@ func codecOracle(c Case, out []string) string {
 		case "put":
 			if out[i] == "ok" {
 				puts = append(puts, fmt.Sprintf("%s:%s:%s", w[1], w[2], w[4]))
+			}
+		case "putany":
+			// the two's-complement bytes of the value at the width PutAny gives the type (8-bit types: 16 bits)
+			if out[i] == "ok" && len(w) == 4 {
+				width := map[string]int{"i8": 2, "u8": 2, "i16": 2, "u16": 2, "i32": 4, "u32": 4}[w[1]]
+				if width == 0 {
+					width = 8
+				}
+				var u uint64
+				if strings.HasPrefix(w[1], "u") {
+					u, _ = strconv.ParseUint(w[3], 10, 64)
+				} else {
+					v, _ := strconv.ParseInt(w[3], 10, 64)
+					u = uint64(v)
+				}
+				puts = append(puts, fmt.Sprintf("2:%s:%s", w[2], hexOf(be(u, width))))
 			}
 		case "seek":
 			want := strings.TrimRight("ops "+strings.Join(puts, " "), " ")
